@@ -3,6 +3,7 @@ package props
 import (
 	"fmt"
 	"math/rand"
+	"strings"
 
 	biscuit "github.com/biscuit-auth/biscuit-go/v2"
 	"github.com/biscuit-auth/biscuit-go/v2/parser"
@@ -27,6 +28,39 @@ func buildScenarioToken(seed int64, label string, blocks []ast.Block) (*lib.Toke
 }
 
 // observeVia authorizes with content entered through the builder structs or through parsed text.
+// observeViaSnapshot enters the content into a first authorizer, saves it with SerializePolicies
+// and authorizes with a second authorizer that loaded the bytes.
+func observeViaSnapshot(tok *lib.Token, a ast.AuthContent) lib.Obs {
+	var o lib.Obs
+	pi := lib.Try(func() {
+		a1, err := tok.B.AuthorizerFor(biscuit.WithSingularRootPublicKey(tok.Pub), lib.BigLimits())
+		if err != nil {
+			o = lib.Obs{Class: lib.FAIL, Err: "authorizer: " + err.Error()}
+			return
+		}
+		lib.AddContent(a1, a)
+		snap, err := a1.SerializePolicies()
+		if err != nil {
+			o = lib.Obs{Class: "SNAPSHOT-ERROR", Err: err.Error()}
+			return
+		}
+		a2, err := tok.B.AuthorizerFor(biscuit.WithSingularRootPublicKey(tok.Pub), lib.BigLimits())
+		if err != nil {
+			o = lib.Obs{Class: lib.FAIL, Err: "authorizer: " + err.Error()}
+			return
+		}
+		if err := a2.LoadPolicies(snap); err != nil {
+			o = lib.Obs{Class: "SNAPSHOT-ERROR", Err: err.Error()}
+			return
+		}
+		o = lib.ObserveOn(a2, ast.AuthContent{}, nil)
+	})
+	if pi != nil {
+		o = lib.Obs{Class: lib.PANIC, Panic: pi}
+	}
+	return o
+}
+
 func observeVia(tok *lib.Token, a ast.AuthContent, probes []ast.Rule, viaText bool) lib.Obs {
 	if !viaText {
 		return lib.Observe(tok.B, tok.Pub, a, probes)
@@ -190,6 +224,85 @@ func c04BlockFeedsAuthorizerRule(c *core.C, tok *lib.Token, a ast.AuthContent) {
 	c.Count("block_feeds_authorizer_rule_cases", 1)
 }
 
+// c04StringsAndQueries: (1) checks on the byte length of strings with non-ASCII characters,
+// decided by the reference; (2) Authorizer.Query with expressions whose string literals the
+// authorizer has never seen - the answers are the reference's.
+func c04StringsAndQueries(c *core.C, tok *lib.Token) {
+	r := c.R
+	words := []string{"café", "日本語", "naïve", "plain", "Ünïcode", ""}
+	w := words[r.Intn(len(words))]
+	sv := ast.Var("s")
+	lenIs := func(n int) ast.Rule {
+		return ast.Rule{Head: ast.P("query"), Body: []ast.Pred{ast.P("c04_word", sv)}, Exprs: []ast.Expr{{ast.OV(sv), ast.OU(int(ast.ULength)), ast.OV(ast.Int(int64(n))), ast.OB(int(ast.BEqual))}}}
+	}
+	for _, n := range []int{len(w), len([]rune(w))} {
+		a := ast.AuthContent{Facts: []ast.Pred{ast.P("c04_word", ast.Str(w))}, Checks: []ast.Check{{Queries: []ast.Rule{lenIs(n)}}}, Policies: []ast.Policy{allowAll}}
+		c04Check(c, "string-length", tok, a, false)
+	}
+	authorizerQueriesWithFreshLiterals(c)
+}
+
+// authorizerQueriesWithFreshLiterals: Authorizer.Query with expressions whose string literals the
+// authorizer has never seen; the answers are the reference's (shared by C04 and C06).
+func authorizerQueriesWithFreshLiterals(c *core.C) {
+	r := c.R
+	// queries with literals nobody has interned yet
+	pv := ast.Var("p")
+	facts := []ast.Pred{ast.P("c04_path", ast.Str("/etc/passwd")), ast.P("c04_path", ast.Str("/home/alice/notes.txt")), ast.P("c04_path", ast.Str("four"))}
+	qs := []ast.Rule{
+		{Head: ast.P("ans", pv), Body: []ast.Pred{ast.P("c04_path", pv)}, Exprs: []ast.Expr{{ast.OV(pv), ast.OV(ast.Str(fmt.Sprintf("/etc/%s", ""))), ast.OB(int(ast.BPrefix))}}},
+		{Head: ast.P("ans", pv), Body: []ast.Pred{ast.P("c04_path", pv)}, Exprs: []ast.Expr{{ast.OV(pv), ast.OV(ast.Str(".txt")), ast.OB(int(ast.BSuffix))}}},
+		{Head: ast.P("ans", pv), Body: []ast.Pred{ast.P("c04_path", pv)}, Exprs: []ast.Expr{{ast.OV(pv), ast.OV(ast.Str("alice")), ast.OB(int(ast.BContains))}}},
+		{Head: ast.P("ans", pv), Body: []ast.Pred{ast.P("c04_path", pv)}, Exprs: []ast.Expr{{ast.OV(pv), ast.OV(ast.Str("^/home/[a-z]+/")), ast.OB(int(ast.BRegex))}}},
+		{Head: ast.P("ans", pv), Body: []ast.Pred{ast.P("c04_path", pv)}, Exprs: []ast.Expr{{ast.OV(ast.Str("fo")), ast.OV(ast.Str("ur")), ast.OB(int(ast.BAdd)), ast.OV(pv), ast.OB(int(ast.BEqual))}}},
+		{Head: ast.P("ans", pv), Body: []ast.Pred{ast.P("c04_path", pv)}, Exprs: []ast.Expr{{ast.OV(ast.Str("a literal only the query has")), ast.OU(int(ast.ULength)), ast.OV(ast.Int(28)), ast.OB(int(ast.BEqual))}}},
+	}
+	fs := ref.Facts{}
+	for _, f := range facts {
+		fs[f.Key()] = f
+	}
+	// (a plain token of its own: the scenario token may carry rules that fail on purpose)
+	plain, err := buildScenarioToken(c.Seed, fmt.Sprintf("c04-plain-%d", c.Idx), []ast.Block{{Facts: []ast.Pred{ast.P("c04_owner", ast.Str("root"))}}, {Facts: []ast.Pred{ast.P("c04_note", ast.Int(1))}}})
+	if err != nil {
+		return
+	}
+	tok := plain
+	for _, q := range qs {
+		c.Eval(1)
+		want, fl := ref.Answers(q, fs, nil)
+		if fl.Err || fl.Lenient || fl.Mixed {
+			continue
+		}
+		var got []string
+		var qerr error
+		if pi := lib.Try(func() {
+			az, err := tok.B.AuthorizerFor(biscuit.WithSingularRootPublicKey(tok.Pub), lib.BigLimits())
+			if err != nil {
+				qerr = err
+				return
+			}
+			for _, f := range facts {
+				az.AddFact(f.LibFact())
+			}
+			if r.Intn(2) == 0 {
+				_ = az.Authorize()
+			}
+			got, qerr = lib.QueryKeys(az, q)
+		}); pi != nil {
+			c.Violate("query-panic/"+pi.Site, pi.Msg, map[string]any{"query": q.Key()})
+			continue
+		}
+		if qerr != nil {
+			c.Violate("query-with-fresh-literal/error", fmt.Sprintf("%s: %v", q.Key(), qerr), map[string]any{"query": q.Key()})
+			continue
+		}
+		if strings.Join(got, ";") != strings.Join(want.Keys(), ";") {
+			c.Violate("query-with-fresh-literal/wrong-answers", fmt.Sprintf("Authorizer.Query(%s) returned %v, the reference %v", q.Key(), got, want.Keys()), map[string]any{"query": q.Key(), "got": got, "want": want.Keys()})
+		}
+		c.Count("queries_with_fresh_literals", 1)
+	}
+}
+
 // perturb derives neighbours that separate the usual inversions.
 func c04Perturb(r *rand.Rand, u *gen.Universe, a ast.AuthContent) (string, ast.AuthContent) {
 	b := ast.AuthContent{Facts: a.Facts, Rules: a.Rules}
@@ -317,6 +430,17 @@ func c04Run(c *core.C) {
 		c04Reused(c, tok, s.Auth, nb)
 		c04NonBoolean(c, tok)
 		c04BlockFeedsAuthorizerRule(c, tok, s.Auth)
+		// the same content through a saved and re-loaded snapshot: the decision procedure does not
+		// care how the content reached the authorizer
+		if d := ref.Authorize(tok.Blocks, a); d.Class != "" {
+			c.Eval(1)
+			if o := observeViaSnapshot(tok, a); o.Class != "SNAPSHOT-ERROR" && o.Class != lib.LIMIT && string(o.Class) != d.Class {
+				c.Violate(fmt.Sprintf("verdict-via-snapshot/%s-where-%s", o.Class, d.Class), fmt.Sprintf("content saved with SerializePolicies and loaded with LoadPolicies: library says %s, decision procedure says %s (%s)", o.Class, d.Class, d.Signature),
+					map[string]any{"token_blocks": tok.Blocks, "authorizer": a, "library": o, "reference": d.Class})
+			}
+			c.Count("via_snapshot", 1)
+		}
+		c04StringsAndQueries(c, tok)
 		if gen.AuthPrintable(a) {
 			c04Check(c, "via-text", tok, a, true)
 			c.Count("via_text", 1)
